@@ -167,6 +167,11 @@ def _cast_cases(akind):
                     continue
                 for cast in ((True, False) if sp in ("put", "putF") else (None,)):
                     yield {"a": s, "ix": [ix], "sp": sp, "v": vname, "cast": cast, "part": "cast"}
+    # assignments that FAIL (position out of range, absent label, wrong number of values) with cast=True: nothing is assigned, so the array -
+    # dtype included - stays what it was ("leaves every other cell ... untouched")
+    for vname in ("float", "str", "floatarr"):
+        for how in ("pos_out_of_range", "absent_label", "too_many_values"):
+            yield {"a": s, "part": "castfail", "how": how, "v": vname}
 
 
 def state_key(case):
@@ -212,6 +217,23 @@ def _nonvalue_snap(a):
 def check(case):
     if case.get("part") == "cast":
         return _check_cast(case)
+    if case.get("part") == "castfail":
+        s = case["a"]
+        a = D.build_impl(s)
+        before = common.snap(a)
+        v = CAST_VALUES[case["v"]]
+        val = np.array(v) if isinstance(v, list) else v
+        if case["how"] == "pos_out_of_range":
+            ret = call(a.put, 7, val, indexing="position", cast=True)
+        elif case["how"] == "absent_label":
+            ret = call(a.put, 25, val, cast=True)
+        else:
+            ret = call(a.put, [10, 20, 30], np.array([val] * 2 if not isinstance(v, list) else list(v) * 2, dtype=object if isinstance(v, str) else None)[:2], cast=True)
+        if not isinstance(ret, Raised):
+            return unspecified("castfail-accepted")
+        if common.snap(a) != before:
+            return bad("put({}, {!r}, cast=True) raised {} but changed the array all the same: now {}".format(case["how"], v, ret, common.describe(a)))
+        return ok("castfail-unchanged", True)
     if case.get("part") == "ndmask":
         return _check_ndmask(case)
     s = case["a"]
@@ -224,9 +246,9 @@ def check(case):
         alts = R.resolve_all(ra, s["kinds"], case["ix"], mode=mode)
     except R.RefRaises:
         got = call(spell.put, a, case["ix"], 1, case["sp"], s["kinds"], mode=mode, **({} if case["sp"] in ("setitem", "locset", "ixset", "ilocset") else {"inplace": case["inplace"]}))
-        if isinstance(got, Raised) or common.snap(a) == before:
+        if common.snap(a) == before:
             return ok("raises-or-unchanged")
-        return bad("index whose read raises IndexError modified the array: {}".format(common.describe(a)))
+        return bad("index whose read raises IndexError modified the array{}: {}".format(" (and raised)" if isinstance(got, Raised) else "", common.describe(a)))
     except R.Unspecified:
         return unspecified()
     if len(alts) != 1:
